@@ -572,7 +572,55 @@ def r9_no_poisoning(ctx):
                   PANIC_UNDER_LOCK.get((fk, what)))
 
 
+def r10_outcomes_not_forgotten(ctx):
+    """(a) the handles of joined tasks live until the tear-down collects their outcome: they are taken out of the module's lists by
+    ModuleRef::at_sim_end (drain) and by the explicit reset_join_handles only — a restart does not forget a task that already panicked;
+    (b) Runtime::finish reports success only after the tear-down reported success, on every exit (also when a limit cut the run short)"""
+    ctx.set_rule('C13.R10')
+    P = ctx.P
+    allowed = {g.key for k in (EV + 'at_sim_end', 'des::net::module::ctx::rt::reset_join_handles') for g in P.scope_of(k)}
+    n = 0
+    for f in P.fn_list:
+        if f.kind == 'promoted' or not f.key.startswith(('des::net::', '<des::net::')):
+            continue
+        for s_ in f.calls():
+            last = s_.name.split('::')[-1]
+            if not s_.args or last not in ('clear', 'drain', 'truncate', 'retain', 'retain_mut', 'pop', 'remove', 'swap_remove', 'split_off', 'take', 'replace', 'drain_filter', 'extract_if'):
+                continue
+            r = f.expr_operand(s_.args[0], s_.b, 'T')
+            fl = [x[2] for x in walk(r) if x[0] == 'field' and x[2] in ('must_join', 'try_join') and str(x[3] if len(x) > 3 else '').endswith('AsyncCoreExt')]
+            if not fl:
+                continue
+            n += 1
+            ctx.check((f.root or f.key) in allowed or f.key in allowed, 'join-handles-forgotten:%s' % (f.root or f.key).split('::')[-1],
+                      'join handles leave the module only through the tear-down (at_sim_end) or the explicit reset_join_handles', s_.where(), {'list': fl[0], 'by': s_.name})
+    ctx.floor('sites taking join handles out of a module', n, 2)
+    f = P.fns.get('des::runtime::Runtime::finish')
+    if f is None:
+        ctx.violation('anchor:Runtime::finish', 'unresolved-anchor: des::runtime::Runtime::finish')
+        return
+    n_ok = 0
+    seen = set()
+    for path, outcome, decs in fn_paths(ctx, f):
+        if outcome != 'return':
+            continue
+        r = path_ret_resolved(f, path)
+        r = peel(r) if r is not None else ('unknown',)
+        if not (r[0] == 'agg' and str(r[1]).endswith('Result::Ok')):
+            continue
+        fin = [a for _, a in path_atoms(f, path, decs) if a[0] == 'is' and any(x[0] == 'call' and str(x[1]).endswith('EventLifecycle::at_sim_end') for x in walk(a[1]))]
+        k = tuple(show_atom(a) for a in fin)
+        n_ok += 1
+        if k in seen:
+            continue
+        seen.add(k)
+        ctx.check(any(a[2] in ('Ok', 'Continue') for a in fin), 'finish-ok-only-after-teardown-ok', 'Runtime::finish returns Ok only on paths that found the tear-down result Ok',
+                  f.where_path(path), list(k))
+    ctx.floor('successful returns of Runtime::finish', n_ok, 2)
+
+
 def run(ctx):
+    r10_outcomes_not_forgotten(ctx)
     r8_join_errors_reported(ctx)
     r9_no_poisoning(ctx)
     r7_failure_changes_nothing_else(ctx)
